@@ -1,4 +1,5 @@
 """C23 - IPAM garbage collection never frees an address that is still in use (kube-controllers node/ipam.go)."""
+import copy
 import json
 import os
 
@@ -8,6 +9,7 @@ from vlib.core import log
 PKG = "kube-controllers/pkg/controllers/node"
 TIME_FIELDS = ("tb", "ta", "tc")
 
+# signatures of the three defects this check found in the original code (repaired by hooks/fix-C23-*.patch)
 SIG_AFF = "bookkeeping:blocksByNode-stale-after-affinity-change"
 SIG_NODE = "bookkeeping:allocationsByNode-stale-after-reassign-to-other-node"
 SIG_LAST = "no-match:release_block:coalesced-delivery"
@@ -77,9 +79,11 @@ P = {
         "E1 node and VM informer caches equal the truth; the pod informer cache may lag the API server",
         "E2 a node is deleted only after the pod cache has caught up on that node's pods (the final re-validation "
         "deliberately prefers the cache once the node is gone)",
-        "E3 watch semantics: the deletion of a block is delivered before a re-created block of the same CIDR "
-        "(the re-list/coalesced case is the subject of the recorded finding, witness leg)",
-        "E4 a handle belongs to one node (it names a container sandbox or a node's tunnel device)",
+        "E3 block deliveries use watch semantics (deletion delivered before a re-created block of the same CIDR) in the "
+        "TLC-generated histories and 5/6 of the seeded ones; 1/6 of the seeded histories and the witness behaviours "
+        "use re-list semantics (a re-created block arrives as a plain update)",
+        "E4 a handle belongs to one node in the TLC-generated histories and 5/6 of the seeded ones; 1/6 reuse handles "
+        "across nodes",
         "time: grace periods 30 ms / 240 ms, sleeps are 0, 100 ms or 750 ms; a release is judged too early only if "
         "the harness clock reading taken inside the IPAM call minus the reading taken before the first sync that "
         "could observe the leak does not exceed the grace period (sound under any scheduling delay)",
@@ -133,14 +137,9 @@ def run(ctx):
 
 
 def witness(ctx):
-    # the witness behaviours are run once their findings are registered (known_findings.json is the lead's
-    # file), or on demand with VERIF_C23_WITNESS=1
-    if os.environ.get("VERIF_C23_WITNESS") == "1" or core.known_match("C23", SIG_AFF):
-        witness_leg(ctx)
-    else:
-        ctx.notes["witness_leg"] = "skipped: findings %s / %s / %s not registered in known_findings.json" % (
-            SIG_AFF, SIG_NODE, SIG_LAST)
-        log("witness leg skipped (findings not registered); run with VERIF_C23_WITNESS=1 to see them")
+    # regression cases of the three onBlockUpdated / garbageCollectKnownLeaks repairs (hooks/fix-C23-*.patch):
+    # handcrafted histories with re-list delivery and a handle reused on another node
+    witness_leg(ctx)
 
 
 def selftest(ctx):
@@ -220,10 +219,14 @@ def selftest(ctx):
                 keep.append(e)
         return keep
 
-    return pipeline.corruption_selftest(ctx, P, [
+    # corruption_selftest hands out shallow copies: work on deep copies so that corruptions stay independent
+    def deep(fn):
+        return lambda evs: fn(copy.deepcopy(evs))
+
+    return pipeline.corruption_selftest(ctx, P, [(n, deep(f)) for n, f in [
         ("stale_seq", stale_seq), ("no_handle", no_handle), ("owner_is_back", owner_is_back),
         ("no_time_passes", no_time_passes), ("partial_handle", partial_handle), ("lost_row", lost_row),
-        ("drop_deliver", drop_deliver), ("leak_survives", leak_survives)], n_random=150)
+        ("drop_deliver", drop_deliver), ("leak_survives", leak_survives)]], n_random=150)
 
 
 MANIFEST = dict(
